@@ -88,3 +88,40 @@ claim('C13', 'property-based round-trip testing of split/replace against re span
       'string for every count (0 = all), equal repl.join(split) when all are replaced, and reject negative counts with the documented exception.',
       'plain replacement strings only (no backslash); split_by_capture judged only for non-nested in-order captured spans',
       'DESIGN.md section 5 C13')
+
+claim('C15', 'property-based testing against a numeric model (complete enumeration of small ranges x numerals + Hypothesis for large ranges and contexts)',
+      'All ranges within 0..130 x numerals 0..1400 with 0-2 leading zeros are decided by exact match against "canonical and in range"; generated '
+      'ranges over all digit-length combinations (carries, 10^k+-1), token texts with every sign context incl. text start/end, the four sign '
+      'variants, include_sign and the extensible form with prefixes are compared with a three-valued model of the documented sign rules.',
+      'digit runs glued to letters, value 0 for Positive/Negative and sign optionality in extensible signed forms are unspecified',
+      'DESIGN.md section 5 C15')
+claim('C16', 'property-based testing against a numeric model with single-fault candidates (Hypothesis)',
+      'Candidates assembled from (sign, integer part, dot, fraction) with single faults are decided by exact match for all four variants, '
+      'include_sign, generated ranges and fraction bounds; get_matches over space-separated candidates equals the model list; invalid bounds '
+      'must raise the documented exceptions.',
+      'candidates touching another dot/digit are unspecified; ASCII digits only',
+      'DESIGN.md section 5 C16')
+claim('C17', 'property-based testing against direct Python models (complete parameter grid for Numeral + Hypothesis)',
+      'Numeral: all bases 2-16 x all bound pairs over 0..5/None are enumerated with candidates in both cases and one-off-alphabet characters; '
+      'Word and the affix classes are compared with \\w-run models over generated sentences; affixes with metacharacters must be read '
+      'literally; invalid parameters must raise the documented exceptions.',
+      'degenerate parameters (empty affix, n_max = 0) unspecified; is_global=False judged on ASCII texts only',
+      'DESIGN.md section 5 C17')
+claim('C18', 'differential testing against the ipaddress module over a complete shape grid (enumeration) plus property-based rendering of random addresses (Hypothesis)',
+      'IPv4: all octet strings 0..999 with 0-2 leading zeros in every position. IPv6: complete grid of (left groups 0-9) x (::) x (right groups 0-9) '
+      'x deviant groups x colon anomalies for both is_extensible settings; random 128-bit values in random RFC 4291 renderings must match; '
+      'addresses glued to digits/separators must not be matched by the non-extensible form.',
+      'ipaddress is the reference; automaton equivalence of the whole regular language is not attempted (see DESIGN.md)',
+      'DESIGN.md section 5 C18')
+claim('C19', 'complete enumeration of candidate dates per format against a direct parser + property-based format-argument testing (Hypothesis)',
+      'For each of the 48 formats and both is_extensible settings the pairwise slice (quick) or the full product (thorough) of field candidates '
+      '(0..9, 00..99, 3-digit strings, years of length 1-5, all separator combinations) is decided against a direct parser of the format '
+      'string; subsets of formats, None/str/list arguments and invalid arguments are generated.',
+      'ASCII digits; the empty list is unspecified',
+      'DESIGN.md section 5 C19')
+claim('C20', 'stateful (history-based) property testing with aliasing and cross-process replay under different hash seeds (Hypothesis + subprocess replay)',
+      'Generated programs combine shared live objects with every operator/spelling, compile and match with them and apply class algebra; after '
+      'each step every object\'s snapshot must be unchanged and the result must equal a rebuild from fresh leaves; every program is then '
+      're-executed in fresh interpreters under other PYTHONHASHSEED values and the semantic fingerprints must be identical.',
+      '2-4 extra hash seeds per shard over 16-64 shards (sampling of the 2^32 seeds); class results fingerprinted on ~220 probe characters',
+      'DESIGN.md section 5 C20')
